@@ -148,3 +148,13 @@ def ctr_rekey_queries(tier, ops_filter=None):
                                 '%s(len %d) on the %s back end in mid-stream (offset %d, arbitrary old schedule, arbitrary buffered bytes): returns 1, lanes stay staggered, and any keystream still counted as buffered is the encryption under the NEW schedule' % (oname, kl, name, o),
                                 defs={'CIPHER': c, 'VEC': v, 'OB_REKEY': 1, 'OP': op, 'KLEN': kl, 'O': o, 'NR': (5 if c == 3 else (40 if c == 1 else 32)) if op != 3 else 2}, ll=ll, timeout=900, fsarray=(1300 if v else None), sanitize=True))
     return qs
+
+def pre_engine_canaries(R):
+    """reproducers of the three CBMC 6.11 front-end defects that decide the routing of the obligations (DESIGN section 2):
+    recorded in the evidence on every run; informational - a defect that disappears only means a detour is no longer needed"""
+    names = {'vecshift': "'>>' on GCC vectors", 'veclayout': 'layout of structs with vector members', 'unionsimp': 'union write with non-literal index'}
+    st = []
+    for n, what in names.items():
+        rc, out, _, _, _ = sh(['cbmc', os.path.join(VERIF, 'harness', 'canary', n + '.c'), '--function', 'harness', '--no-standard-checks'], timeout=120)
+        st.append('%s: %s' % (what, 'still mis-modelled' if 'VERIFICATION FAILED' in out else ('modelled correctly' if 'VERIFICATION SUCCESSFUL' in out else 'no verdict')))
+    return True, 'CBMC engine canaries - ' + '; '.join(st)
